@@ -386,6 +386,15 @@ Definition snap_of (y : sys) : snap :=
   let s := y_store y in
   mkSnap (map row_seq (s_rows s)) (s_leo s) (load_hw s) (s_local s) (s_phys s) (s_rmax s) (y_r y).
 
+(* case files print a snapshot's row list as ranges: [rgs [(2, 14); (20, 21)]] = [2; ...; 14; 20; 21] *)
+Fixpoint rg (lo : N) (n : nat) : list N :=
+  match n with O => [] | S k => lo :: rg (lo + 1) k end.
+Fixpoint rgs (l : list (N * N)) : list N :=
+  match l with
+  | [] => []
+  | (lo, hi) :: rest => rg lo (N.to_nat (hi + 1 - lo)) ++ rgs rest
+  end.
+
 Record step_obs := mkStep { o_op : op; o_res : res; o_snap : snap }.
 
 Inductive c10_case :=
